@@ -571,13 +571,19 @@ def describe(obj) -> dict:
 def _as(value, how):
     if value is None:
         return None
-    if how == "rel":
-        # relative to the node's working directory (the run directory)
+    if how == "rel" or how.startswith("rel:"):
+        # relative to the node's working directory: the run directory or, if
+        # it exists by now, one of its sub-directories (the caller changed
+        # directory between two library calls)
         root = shims.STATE.root
         if root and str(value).startswith(root.rstrip("/") + "/"):
-            if os.getcwd() != root:
-                os.chdir(root)
-            return os.path.relpath(str(value), root)
+            cwd = root
+            sub = how[4:] if how.startswith("rel:") else ""
+            if sub and os.path.isdir(os.path.join(root, sub)):
+                cwd = os.path.join(root, sub)
+            if os.getcwd() != cwd:
+                os.chdir(cwd)
+            return os.path.relpath(str(value), cwd)
         return str(value)
     return pathlib.Path(value) if how == "path" else str(value)
 
